@@ -20,6 +20,15 @@ TAGSETS = ["", "invariants", "invariants,iterv2"]
 BIN = "/verif/bin/pebblevet"
 
 
+def load_variants():
+    sys.path.insert(0, "/verif/selftest")
+    try:
+        import variants
+        return variants.VARIANTS
+    except ImportError:
+        return []
+
+
 def main():
     prop = sys.argv[1]
     t0 = time.time()
@@ -60,10 +69,7 @@ def main():
             if ev is not None and (merged is None or tags == ""):
                 merged = ev
     # self-test variants
-    variants = []
-    vfile = "/verif/selftest/variants.json"
-    if os.path.exists(vfile):
-        variants = [v for v in json.load(open(vfile)) if v["property"] == prop]
+    variants = [v for v in load_variants() if v["property"] == prop]
 
     def runv(v):
         code, out = mutate.run(prop, v["file"], v["old"], v["new"], count=v.get("count", 1))
